@@ -34,17 +34,18 @@ type runSpec struct {
 }
 
 type scenario struct {
-	Name      string
-	Stream    bool
-	V1        bool
-	Hello     string    // "", "badversion", "badschema"
-	Runs      []runSpec // issued concurrently
-	Later     bool      // one more Execute after the first group returned ("pending or later Execute")
-	WriteSide bool      // enumerate write-side failures instead of read-side faults
-	Flip      bool      // enumerate single flipped bytes instead of EOF / error / garbage
-	Crash     bool      // the peer dies: from the moment the read fault is reached every client write fails too
-	StreamLen int       // healthy server->client transcript length (measured)
-	Writes    int       // healthy number of client writes (measured)
+	Name       string
+	Stream     bool
+	V1         bool
+	Hello      string    // "", "badversion", "badschema"
+	Runs       []runSpec // issued concurrently
+	Later      bool      // one more Execute after the first group returned ("pending or later Execute")
+	WriteSide  bool      // enumerate write-side failures instead of read-side faults
+	Flip       bool      // enumerate single flipped bytes instead of EOF / error / garbage
+	Crash      bool      // the peer dies: from the moment the read fault is reached every client write fails too
+	CloseEarly bool      // Close is called while the runs are still pending (as soon as the peer has received their work-starts)
+	StreamLen  int       // healthy server->client transcript length (measured)
+	Writes     int       // healthy number of client writes (measured)
 }
 
 func scenarios(tier string) []scenario {
@@ -62,6 +63,8 @@ func scenarios(tier string) []scenario {
 		{Name: "hello-badschema", Hello: "badschema"},
 		{Name: "v3-1run-signals-crash", Runs: []runSpec{{RunID: "r1", ToStep: 1}}, Crash: true, Later: true},
 		{Name: "v3-2runs-crash", Runs: []runSpec{{RunID: "r1", ToStep: 1, FromStep: 1}, r("r2")}, Crash: true},
+		{Name: "v3-1run-close-while-pending", Runs: []runSpec{r("r1")}, CloseEarly: true},
+		{Name: "v3-2runs-close-while-pending", Runs: []runSpec{{RunID: "r1", ToStep: 1}, r("r2")}, CloseEarly: true},
 		{Name: "v3-1run-writefail", Runs: []runSpec{{RunID: "r1", ToStep: 1}}, WriteSide: true, Later: true},
 		{Name: "v3-2runs-writefail", Runs: []runSpec{r("r1"), r("r2")}, WriteSide: true},
 		{Name: "v1-1run-writefail", V1: true, Runs: []runSpec{r("v1")}, WriteSide: true},
@@ -266,6 +269,38 @@ func body(sc *scenario, measure bool) func() {
 			res := cli.Execute(schema.Input{RunID: x.RunID, ID: "step", InputData: map[string]any{"name": x.RunID}}, to, from)
 			o.results[x.RunID] = &res
 			o.returned[x.RunID]++
+		}
+		if err == nil && sc.CloseEarly {
+			// Close while the runs are pending: every Execute runs in a thread of its own, Close is called as soon as the
+			// peer has received all work-starts (or the executes have returned because the stream broke earlier)
+			var wg, started mcrt.WaitGroup
+			started.Add(1)
+			pendingStarts := len(sc.Runs)
+			released := false
+			release := func() {
+				if !released {
+					released = true
+					started.Done()
+				}
+			}
+			peer.OnWorkStart = func(string) {
+				pendingStarts--
+				if pendingStarts == 0 {
+					release()
+				}
+			}
+			for _, x := range sc.Runs {
+				x := x
+				wg.Add(1)
+				mcrt.GoNamed("exec-"+x.RunID, func() { defer wg.Done(); exec(x) })
+			}
+			mcrt.GoNamed("all-returned", func() { wg.Wait(); release() })
+			started.Wait()
+			o.closeErr = cli.Close()
+			o.closed = true
+			wg.Wait()
+			_ = c2s.Writer().Close()
+			return
 		}
 		if err == nil {
 			var wg mcrt.WaitGroup
